@@ -173,7 +173,7 @@ def _compile_from_unpack_list(src_cls: type[VariablePayload], names: list[str]) 
     :rtype: code
     """
     arg_list = ", ".join(names)
-    args = ", ".join([f"None if {name} is None else cls.fix_unpack_{name}({name})"
+    args = ", ".join([f"cls.fix_unpack_{name}({name})"
                       if hasattr(src_cls, "fix_unpack_" + name)
                       else name for name in names])
     f_code = f"""
